@@ -4,7 +4,7 @@ from __future__ import annotations
 import ast
 
 from ..raises import Esc, MayRaise
-from ..readerrules import NOT_ENOUGH, lemma_no_consume_on_failure, stream_reader_uses
+from ..readerrules import NOT_ENOUGH, lemma_identity_before_completeness, lemma_no_consume_on_failure, stream_reader_uses
 from ..report import Finding, Run
 from ..session import SESSION_MOD
 from ..srcmodel import AnalysisError, Model, norm, walk_no_nested
@@ -83,6 +83,7 @@ def check(model: Model, run: Run) -> None:
         run.fail(Finding("Q2-stream-reader-only-validated-reads", "sansldap._messages.unpack_ldap_message", f"methods={sorted(methods - allowed)}|escapes={escapes[:2]}",
                          "the stream-level reader is used for something other than validated reads (skip_value/get_remaining_data advance without checking that the bytes are there)", ""))
     lemma_no_consume_on_failure(model, run, "C06")
+    lemma_identity_before_completeness(model, run)
     # any other handler on the receive path that swallows NotEnougData must obey the same provenance rule
     for fq, f2 in list(model.functions.items()):
         if f2 is fi or any(r.fi is f2 for r in region) or isinstance(f2.node, ast.Lambda) or (fq, None) not in mr.summ:
